@@ -12,11 +12,14 @@ from ..util import (has_call, find_calls, assigned_value, const_str, unparse, kw
                     guards_of, call_tail, name_bound, bound_names)
 from .. import mutate as M
 
+TECHNIQUE = "static analysis: writer/reader table agreement (tags, positions, '_packed'), loop-nest shape rule for packing, encoder-default rules (ASCII only, key order kept), normaliser shape rule, sink/source predicate agreement"
+
 EXPLANATION = ("Table-agreement and wiring rules over ProcessTasks (producer of T1..T4), Experiment.run (T0, pipelines), "
                "TransactionEncode, TransactionDecode, TransactionResult and Environments.from_result: produced T-codes are "
                "a subset of handled codes, each arm emits one record through the single encoder (minimize applied once), "
                "emitted tags/positions/'_packed' agree with all readers, rows are packed one cell per (row,key) in row "
                "order and numbered range(1,N+1), and the file and in-memory paths share encode/decode.")
+EXPLANATION += ' R1 also: key order is kept (sort_keys off); R4 also: sink and source choose gzip by the same predicate; R5: params are normalised one level only (top-level list -> tuple).'
 
 EXP = "coba/experiments/core.py"
 PROC = "coba/experiments/process.py"
